@@ -2,7 +2,6 @@ package c17
 
 import (
 	"context"
-	"errors"
 	"fmt"
 	"math/rand/v2"
 	"runtime"
@@ -230,17 +229,18 @@ func raceSema(args []string) error {
 				ready.Done()
 				<-start
 				for it := 0; it < 40; it++ {
-					var ctx context.Context
-					cancel := func() {}
+					// contexts of every kind: timeouts / deadlines with and without a
+					// cause (and a child of one), already-done contexts of all kinds, or none
+					var cc callCtx
 					switch c := rng.IntN(10); {
 					case n == 0 || c < 3:
-						ctx, cancel = context.WithTimeout(context.Background(), time.Duration(20+rng.IntN(300))*time.Microsecond)
+						cc = makeTimedCtx(rng.IntN(4), time.Duration(20+rng.IntN(300))*time.Microsecond)
 					case c == 3:
-						ctx, cancel = context.WithCancel(context.Background())
-						cancel()
+						cc = makeCtx(rng.IntN(len(ctxKinds)), true)
 					default:
-						ctx = context.Background()
+						cc = callCtx{ctx: context.Background(), cancel: func() {}, kind: "Background"}
 					}
+					ctx, cancel := cc.ctx, cc.cancel
 					l.calls++
 					err := sem.Acquire(ctx)
 					if err == nil {
@@ -249,8 +249,8 @@ func raceSema(args []string) error {
 						sem.Release()
 					} else {
 						l.errs++
-						if ce := ctx.Err(); ce == nil || !errors.Is(err, ce) {
-							l.bad = append(l.bad, fmt.Sprintf("Acquire returned %q, context error %v", err, ce))
+						if prob := ctxErrProblem(err, cc); prob != "" {
+							l.bad = append(l.bad, "Acquire "+prob)
 						}
 					}
 					cancel()
@@ -460,17 +460,18 @@ func stressSemaHWM(args []string) error {
 				ready.Done()
 				<-start
 				for it := 0; it < 60; it++ {
-					var ctx context.Context
-					cancel := func() {}
+					// contexts of every kind: timeouts / deadlines with and without a
+					// cause (and a child of one), already-done contexts of all kinds, or none
+					var cc callCtx
 					switch c := rng.IntN(10); {
 					case n == 0 || c < 3:
-						ctx, cancel = context.WithTimeout(context.Background(), time.Duration(20+rng.IntN(400))*time.Microsecond)
+						cc = makeTimedCtx(rng.IntN(4), time.Duration(20+rng.IntN(400))*time.Microsecond)
 					case c == 3:
-						ctx, cancel = context.WithCancel(context.Background())
-						cancel()
+						cc = makeCtx(rng.IntN(len(ctxKinds)), true)
 					default:
-						ctx = context.Background()
+						cc = callCtx{ctx: context.Background(), cancel: func() {}, kind: "Background"}
 					}
+					ctx, cancel := cc.ctx, cc.cancel
 					calls.Add(1)
 					err := sem.Acquire(ctx)
 					if err == nil {
@@ -484,8 +485,8 @@ func stressSemaHWM(args []string) error {
 						spin(rng.IntN(4))
 						holders.Add(-1)
 						sem.Release()
-					} else if ce := ctx.Err(); ce == nil || !errors.Is(err, ce) {
-						badErr.Store(fmt.Sprintf("Acquire returned %q, context error %v", err, ce))
+					} else if prob := ctxErrProblem(err, cc); prob != "" {
+						badErr.Store("Acquire " + prob)
 					}
 					cancel()
 				}
@@ -569,7 +570,10 @@ func stressSema(args []string) error {
 					}
 					ncall++
 					call := ncall
-					ctx, cancel := context.WithCancel(context.Background())
+					// on-demand kinds: plain, with a cause, decorated, nested, custom
+					mk := ctxKinds[rng.IntN(len(ctxKinds))]
+					cc := makeCtxKind(mk, false)
+					ctx, cancel := cc.ctx, cc.cancel
 					cst := "live"
 					var tm *time.Timer
 					// the invoke stamp precedes everything that belongs to the call,
@@ -598,15 +602,14 @@ func stressSema(args []string) error {
 					r := "ok"
 					if err != nil {
 						r = "err"
-						if ce := ctx.Err(); ce == nil || !errors.Is(err, ce) {
-							res.Mismatch("ChanSemaphore stress: Acquire error",
-								fmt.Sprintf("Acquire returned %q, context error %v", err, ce), map[string]any{"n": n, "round": round})
+						if prob := ctxErrProblem(err, cc); prob != "" {
+							res.Mismatch("ChanSemaphore stress: Acquire error", "Acquire "+prob, map[string]any{"n": n, "round": round})
 						}
 					} else {
 						holding++
 					}
-					mine = append(mine, stamped{inv, map[string]any{"t": "inv", "op": "acq", "g": i, "c": cst, "res": r}},
-						stamped{ret, map[string]any{"t": "ret", "op": "acq", "g": i, "res": r}})
+					mine = append(mine, stamped{inv, map[string]any{"t": "inv", "op": "acq", "g": i, "c": cst, "k": mk, "res": r}},
+						stamped{ret, map[string]any{"t": "ret", "op": "acq", "g": i, "res": r, "e": errName(err)}})
 					if tm != nil && tm.Stop() {
 						timers.Done()
 						cancel() // after the return: not an event
@@ -769,9 +772,8 @@ rounds:
 				continue
 			}
 			losers++
-			if ce := ccs[i].ctx.Err(); ce == nil || !errors.Is(e, ce) || !errors.Is(e, ccs[i].want) {
-				res.Mismatch("ChanSemaphore contention: Acquire error",
-					fmt.Sprintf("a losing Acquire returned %q, not its context's error %v (%s)", e, ce, ccs[i].kind), det)
+			if prob := ctxErrProblem(e, ccs[i]); prob != "" {
+				res.Mismatch("ChanSemaphore contention: Acquire error", "a losing Acquire "+prob, det)
 			}
 		}
 		if oks != n {
